@@ -252,35 +252,81 @@ def run(ctx):
     d = fx.find(domain="comb", target="wishbone.dat_r")
     ok = len(d) == 1 and d[0].v == "axi_lite.r.data"
     ctx.ob("B5", ALW, "Wishbone2AXILite", "dat_r <- r.data", ok, "" if ok else f"{[a.v for a in d]}")
-    # AHB tables
+    # AHB tables: every leaf of the size -> byte-select decode, instantiated for both data widths (literal tables and tables built
+    # by loops alike: symbolic loops of the IR are run by the checker's interpreter), is the byte-lane mask of its (size, lane)
+    from .. import pyconst as _pcb
     fx = fx_of(ctx, AHB, "AHB2Wishbone")
     leaves = fx.find(domain="comb", target="wishbone_sel")
-    ctx.ob("B5", AHB, "AHB2Wishbone", "size->sel table:present", len(leaves) >= 20, f"{len(leaves)} leaves")
-    for a in leaves:
-        dwid = 64 if ("ahb.data_width == 64", True) in a.pyguards else (32 if ("ahb.data_width == 32", True) in a.pyguards else None)
-        nbytes = dwid // 8 if dwid else None
-        size = lane = None
-        lo = hi = None
-        for c, p in a.guards:
-            t = norm(c)
-            if t.startswith("ahb.size == ") and p:
-                size = int(t.split("== ")[1])
-            if t.startswith("ahb.addr[") and p:
-                sl = t[len("ahb.addr["):t.index("]")]
-                lo, hi = [int(x) for x in sl.split(":")]
-                lane = int(t.split("== ")[1])
-        ok = dwid is not None and size is not None
-        if ok:
-            full = (1 << nbytes) - 1
-            if lane is None:
-                want = ((1 << (1 << size)) - 1) & full if (1 << size) >= nbytes else None
-                ok = want is not None and int(a.v) == want
-            else:
-                want = (((1 << (1 << size)) - 1) << (lane << size)) & full
-                kk = nbytes.bit_length() - 1
-                ok = int(a.v) == want and lo == size and hi == kk
-        ctx.ob("B5", AHB, "AHB2Wishbone", f"dw={dwid} size={size} lane={lane}: sel = byte-lane mask", ok,
-               "" if ok else f"leaf {a.v} under {a.gtext()} is not ((1<<(1<<size))-1) << (lane<<size) on addr[size:log2(bytes)]", a.line)
+    n_leaf = 0
+    seen = {}
+    for dwid in (32, 64):
+        nbytes = dwid // 8
+        kk = nbytes.bit_length() - 1
+        envb = {"ahb": _pcb.NS(data_width=dwid)}
+        for a in leaves:
+            if not q.pg_active(a.pyguards, envb) or not all(q.pg_active([(c_, p_)], {"ahb": envb["ahb"]}) for c_, p_ in a.pyguards):
+                continue
+            # Python-level guards written on ahb.data_width are evaluated by value
+            skip = False
+            for c_, p_ in a.pyguards:
+                try:
+                    v_ = _pcb.Interp(dict(envb)).ev(ast.parse(c_, mode="eval").body)
+                    if isinstance(v_, (bool, int)) and bool(v_) != p_:
+                        skip = True
+                except Exception:       # noqa
+                    pass
+            if skip:
+                continue
+            try:
+                insts = list(q.instantiate(a, envb))
+            except q.NotConcrete as ex:
+                ctx.need(False, f"AHB2Wishbone: size->sel table cannot be instantiated ({ex})")
+            for inst in insts:
+                size = lane = lo = hi = None
+                okg = True
+                for c, p in a.guards:
+                    if not (isinstance(c, ast.Compare) and len(c.ops) == 1 and isinstance(c.ops[0], ast.Eq) and p):
+                        okg = False
+                        continue
+                    try:
+                        rhs = _pcb.Interp(dict(inst)).ev(c.comparators[0])
+                    except Exception:   # noqa
+                        rhs = None
+                    lt = norm(c.left)
+                    if lt == "ahb.size":
+                        size = rhs
+                    elif isinstance(c.left, ast.Subscript) and norm(c.left.value) in ("ahb.addr", "ahb_addr") and isinstance(c.left.slice, ast.Slice):
+                        try:
+                            lo = _pcb.Interp(dict(inst)).ev(c.left.slice.lower)
+                            hi = _pcb.Interp(dict(inst)).ev(c.left.slice.upper)
+                        except Exception:   # noqa
+                            lo = hi = None
+                        lane = rhs
+                    else:
+                        okg = False
+                try:
+                    val = _pcb.Interp(dict(inst)).ev(fx.expand(a.value))
+                except Exception:       # noqa
+                    val = None
+                ok = okg and isinstance(size, int) and isinstance(val, int)
+                if ok:
+                    full = (1 << nbytes) - 1
+                    if lane is None:
+                        want = ((1 << (1 << size)) - 1) & full if (1 << size) >= nbytes else None
+                        ok = want is not None and val == want
+                    else:
+                        want = (((1 << (1 << size)) - 1) << (lane << size)) & full
+                        ok = val == want and lo == size and hi == kk
+                n_leaf += 1
+                seen.setdefault(dwid, set()).add((size, lane))
+                ctx.ob("B5", AHB, "AHB2Wishbone", f"dw={dwid} size={size} lane={lane}: sel = byte-lane mask", ok,
+                       "" if ok else f"leaf {val} under {a.gtext()} {inst if a.loops else ''} is not ((1<<(1<<size))-1) << (lane<<size) on addr[size:log2(bytes)]", a.line)
+    ctx.ob("B5", AHB, "AHB2Wishbone", "size->sel table:present", n_leaf >= 20, f"{n_leaf} leaves")
+    for dwid in (32, 64):
+        nbytes = dwid // 8
+        want_keys = {(sz, ln) for sz in range(nbytes.bit_length() - 1) for ln in range(nbytes >> sz)}
+        miss = sorted(want_keys - seen.get(dwid, set()))
+        ctx.ob("B5", AHB, "AHB2Wishbone", f"dw={dwid}: every (size, lane) below the bus width has a leaf", not miss, f"missing {miss[:4]}")
 
     # ================================================================ B6
     for rel, name, is_func, flag, rd_states, wr_states in (
